@@ -118,7 +118,8 @@ class VhdxSuite(ReaderSuite):
 
     def generate(self, rng, tier):
         n = 1200 if tier == "thorough" else 70
-        return [gen_case(rng, tier) for _ in range(n)]
+        from harness.readers import with_twins
+        return with_twins([gen_case(rng, tier) for _ in range(n)], rng)
 
     def build_files(self, case):
         return {"file": fmt_vhdx.build(case)}
